@@ -55,6 +55,30 @@ Theorem C14_messages_follow_map : forall sha1 cf disk ovf s r,
   acts_of_outcome (hstep sha1 cf disk ovf s (EBroadOwn None) r) = [].
 Proof. intros. repeat split. Qed.
 
+(* the timer's own wrapper (timeout_change_conn_state) hands change_conn_state one (address, rate) pair per connected
+   peer -- upload rates while leeching, download rates once everything is owned -- in the iteration order of a hash map,
+   i.e. SOME permutation of the peers: the theorems above quantify over every rate list, so they hold for whatever
+   order that is, ties included *)
+Definition tick_rates (m : mgr) : list (addr * N) :=
+  let seeder := forallb is_have (m_status m) in
+  map (fun kp => (fst kp, match (if seeder then p_drate (snd kp) else p_urate (snd kp)) with Some r => r | None => 0 end)) (m_peers m).
+Theorem C14_timer_wrapper : forall m rates new_opt m' fl,
+  NoDup (map fst (m_peers m)) -> Permutation rates (tick_rates m) ->
+  change_conn_state m rates new_opt = Ok (m', fl) ->
+  U (m_peers m') <= 10 + len new_opt /\
+  (forall a p', In a (map fst rates) -> ~ In a new_opt -> pget (m_peers m') a = Some p' -> p_am_choked p' = false -> p_interested p' = true) /\
+  (forall a ra b rb pa pb, In (a, ra) rates -> In (b, rb) rates ->
+     pget (m_peers m') a = Some pa -> pget (m_peers m') b = Some pb ->
+     p_am_choked pa = true -> p_interested pa = true -> p_am_choked pb = false -> p_optimistic pb = false -> ra <= rb).
+Proof.
+  intros m rates new_opt m' fl Hnd Hperm H.
+  assert (Hkeys : Permutation (map fst rates) (map fst (m_peers m))).
+  { eapply Permutation_trans; [apply Permutation_map; exact Hperm|]. unfold tick_rates. rewrite map_map. cbn [fst]. apply Permutation_refl. }
+  assert (Hnd' : NoDup (map fst rates)) by (eapply Permutation_NoDup; [apply Permutation_sym; exact Hkeys | exact Hnd]).
+  split; [exact (rotation_bound m rates new_opt m' fl Hnd Hkeys H)|].
+  split; [intros; eapply rotation_slots_interested; eassumption | intros; eapply rotation_rate_order; eassumption].
+Qed.
+
 Example C14_nonvacuous :
   let p c i := mkpeer None [] None false c i true false None None in
   match change_conn_state (mkmgr [] [(1, p true true); (2, p false false); (3, p true true)] [] 0 false []) [(1, 5); (2, 9); (3, 5)] [] with
@@ -69,3 +93,4 @@ Print Assumptions C14_slots_interested.
 Print Assumptions C14_rate_order.
 Print Assumptions C14_map_exact.
 Print Assumptions C14_messages_follow_map.
+Print Assumptions C14_timer_wrapper.
